@@ -357,7 +357,8 @@ def jsonFromL (fm : FloatModel) : List DM → Option (List Json)
 def jsonFromO (fm : FloatModel) : List (DM × DM) → Option (List (String × Json))
   | [] => some []
   | (k, x) :: xs => match k, jsonFrom fm x, jsonFromO fm xs with
-    | .text s, some y, some ys => some ((s, y) :: ys)
+    -- `serde_json::Map` is a `BTreeMap`: of two entries with one key the later one wins
+    | .text s, some y, some ys => if ys.any (fun kv => kv.1 == s) then some ys else some ((s, y) :: ys)
     | _, _, _ => none
 end
 
